@@ -58,6 +58,8 @@ func main() {
 		runKpool(r, n)
 	case "kmuxfid":
 		runKmuxfid(r, n)
+	case "kstale":
+		runKstale(r, n)
 	case "kmux":
 		runKmux(r, n)
 	case "kcs":
